@@ -62,6 +62,9 @@ pub struct Scn {
     pub concurrent: Vec<ReqSpec>,
     pub bufsize: usize,
     pub cancellable: bool,
+    /// the client's protocol only speaks HTTP/1.1 (as when ALPN settles on http/1.1): a request
+    /// that asks for HTTP/2 gets a connection that cannot be shared
+    pub h1_only_client: bool,
 }
 
 impl Default for ChunkBody {
@@ -191,14 +194,25 @@ pub fn run_one(scn: &Scn, schedule: &[usize]) -> Execution<Outcome> {
     spawn_origin!(s, ia, obs, "A");
     spawn_origin!(s, ib, obs, "B");
     let transport = RouteTransport { a: ca.clone(), b: cb.clone(), bufsize: scn.bufsize };
-    let svc: ClientSvc = hyperdriver::Client::builder()
-        .with_protocol(HttpConnectionBuilder::<ChunkBody>::default())
-        .with_transport(transport)
-        .with_default_pool()
-        .without_timeout()
-        .without_tls()
-        .with_body::<ChunkBody, Body>()
-        .build_service();
+    let svc: ClientSvc = if scn.h1_only_client {
+        hyperdriver::Client::builder()
+            .with_protocol(hyper::client::conn::http1::Builder::new())
+            .with_transport(transport)
+            .with_default_pool()
+            .without_timeout()
+            .without_tls()
+            .with_body::<ChunkBody, Body>()
+            .build_service()
+    } else {
+        hyperdriver::Client::builder()
+            .with_protocol(HttpConnectionBuilder::<ChunkBody>::default())
+            .with_transport(transport)
+            .with_default_pool()
+            .without_timeout()
+            .without_tls()
+            .with_body::<ChunkBody, Body>()
+            .build_service()
+    };
     // prelude: earlier requests, one after the other, leaving connections in the pool
     let start = Gate::new();
     {
@@ -306,7 +320,7 @@ fn r(id: u32, origin: char, h2: bool, post: bool, chunks: u8) -> ReqSpec {
 }
 
 pub fn scenarios(thorough: bool) -> Vec<Scn> {
-    let mk = |name: &str, prelude: Vec<ReqSpec>, concurrent: Vec<ReqSpec>, bufsize: usize, cancellable: bool| Scn { name: name.into(), prelude, concurrent, bufsize, cancellable };
+    let mk = |name: &str, prelude: Vec<ReqSpec>, concurrent: Vec<ReqSpec>, bufsize: usize, cancellable: bool| Scn { name: name.into(), prelude, concurrent, bufsize, cancellable, h1_only_client: false };
     let mut v = vec![
         mk("h1-2-concurrent", vec![], vec![r(1, 'a', false, true, 2), r(2, 'a', false, true, 1)], 1024, true),
         mk("h1-reuse-after-prelude", vec![r(9, 'a', false, true, 1)], vec![r(1, 'a', false, true, 2), r(2, 'a', false, false, 0)], 1024, true),
@@ -320,6 +334,10 @@ pub fn scenarios(thorough: bool) -> Vec<Scn> {
         mk("root-path-with-query", vec![], vec![ReqSpec { root_path: true, ..r(1, 'a', false, true, 1) }, ReqSpec { root_path: true, ..r(2, 'a', true, false, 0) }], 1024, false),
         mk("two-origins-preludes", vec![r(8, 'a', false, true, 1), r(9, 'b', false, true, 1)], vec![r(1, 'a', false, true, 1), r(2, 'b', false, true, 1)], 1024, true),
     ];
+    // requests that ask for HTTP/2 through a client whose protocol only speaks HTTP/1.1: the first
+    // one's attempt is marked as multiplexed, the others wait for it, the connection that comes
+    // back cannot be shared
+    v.push(Scn { h1_only_client: true, ..mk("h2-requests-h1-only-protocol-2-concurrent", vec![], vec![r(1, 'a', true, true, 1), r(2, 'a', true, true, 1)], 1024, false) });
     if thorough {
         v.push(mk("h1-3-concurrent", vec![], vec![r(1, 'a', false, true, 1), r(2, 'a', false, true, 2), r(3, 'a', false, false, 0)], 1024, true));
         v.push(mk("h2-3-concurrent", vec![], vec![r(1, 'a', true, true, 1), r(2, 'a', true, true, 2), r(3, 'a', true, false, 0)], 1024, true));
